@@ -68,7 +68,32 @@ def parallel_end_scenario(seed, i, store):
     return {"id": f"c17-{seed}-{i}-{store}-parallel", "config": cfg, "models": [w], "ops": ops, "exprs": {"(x == 0)": ["bin", "==", ["var", "x"], ["lit", 0]]}, "pids": ["p0", "p1"]}
 
 
+def big_process_scenario(seed, i, store):
+    """a process that owns more task rows than any page of a listing (100 and more: a long chain of steps, or a generator over a long list)
+    ends by completion, abort, error or skip while a small process stays open: nothing of it is left, nothing of the other one is taken"""
+    rng = Rng(seed * 49979693 + i)
+    n = rng.pick([rng.range(99, 131), rng.range(195, 260), rng.range(301, 330)])
+    if rng.chance(1, 2):
+        steps = [{"id": f"m0s{j}"} for j in range(n)] + [{"id": "m0sz", "acts": [{"id": "m0az", "uses": gen.IRQ, "key": "m0kz"}]}]
+        shape = "chain"
+    else:
+        m = max(34, n // 3)
+        steps = [{"id": "m0s1", "acts": [{"id": "m0g", "uses": "acts.core.parallel", "params": {"in": list(range(m)), "acts": [
+            {"id": "m0ga", "uses": gen.IRQ, "key": "m0kg"}, {"id": "m0gb", "uses": gen.MSG, "key": "m0km"}]}}]}]
+        shape = "generator"
+    w0 = {"id": "m0", "steps": steps}
+    w1 = {"id": "m1", "steps": [{"id": "m1s1", "acts": [{"id": "m1a1", "uses": gen.IRQ, "key": "m1k1"}]}]}
+    how = rng.pick(["next", "abort", "error", "skip"] if shape == "chain" else ["abort", "error", "abort"])
+    ops = [["chan_open", {"id": "ackc", "ack": True}], ["deploy", 0], ["deploy", 1], ["start", "m1", {"pid": "p1"}], ["start", "m0", {"pid": "p0"}], ["runall"],
+           ["act", how, "p0", {"open": rng.below(3)}, {"ecode": "e1", "message": "x"}], ["runall", rng.pick(["fifo", "lifo"]), rng.below(1 << 30)],
+           ["act", "next", "p0", {"open": 0}, {}], ["runall"], ["act", "next", "p1", {"open": 0}, {}], ["runall"]]
+    cfg = {"keep": rng.chance(1, 4), "store": store, "rows_each": ["procs", "tasks", "messages", "events", "models"]}
+    return {"id": f"c17-{seed}-{i}-{store}-big-{shape}", "config": cfg, "models": [w0, w1], "ops": ops, "exprs": {}, "pids": ["p0", "p1"]}
+
+
 def gen_scenario(seed, i, store):
+    if i % 10 == 8:
+        return big_process_scenario(seed, i, store)
     if i % 10 == 6:
         return many_events_scenario(seed, i, store)
     if i % 10 == 3:
@@ -126,7 +151,7 @@ def run(ctx):
             part = scs[lo:lo + 400]
             for pair in zip(part, ctx.harness("run", part, tag="h%d" % (lo // 400))):
                 yield pair
-    stats = {"finished": 0, "endings": {}, "keep_runs": 0, "default_runs": 0, "refused_after_removal": 0, "rm_model": 0, "max_events_of_a_removed_model": 0}
+    stats = {"finished": 0, "endings": {}, "keep_runs": 0, "default_runs": 0, "refused_after_removal": 0, "rm_model": 0, "max_events_of_a_removed_model": 0, "max_task_rows_of_a_process": 0}
     for sc, res in batches():
         ctx.cov["evaluations"] += 1
         if res.get("panic") or res.get("crashed"):
@@ -171,6 +196,7 @@ def run(ctx):
             trow = {}
             for r in rows.get("tasks", []):
                 trow.setdefault(r["pid"], []).append(r)
+            stats["max_task_rows_of_a_process"] = max([stats["max_task_rows_of_a_process"]] + [len(v) for v in trow.values()])
             # the retention predicate itself is `Ret.retentionCheck`, evaluated by the Lean driver on these rows (collected here, judged below)
             # (kept rows: the processes that ended before this operation — the last task events of an ending may still be on their way
             # while the operation that ended it is observed)
